@@ -1604,6 +1604,31 @@ func (l *Lowerer) callContract(ct *Contract, fi *FuncInfo, recv *Term, recvTyp t
 		st = append(st, snapBlock.Stmts[snapIdx:]...)
 		snapBlock.Stmts = st
 	}
+	// a function literal handed to a callee whose contract specifies the callback (<callee>.<param>) is called by that
+	// callee only (its body is verified against that callback contract) and is not retained: once the call has
+	// returned, the variables the literal captures are no longer exposed to later calls
+	if ce, ok := node.(*ast.CallExpr); ok && fi.Sig != nil {
+		for i, a := range ce.Args {
+			fl, ok := ast.Unparen(a).(*ast.FuncLit)
+			if !ok || i >= fi.Sig.Params().Len() || l.p.litInfo[fl] == nil {
+				continue
+			}
+			if l.p.contracts[fi.Key+"."+fi.Sig.Params().At(i).Name()] == nil {
+				continue
+			}
+			l.note("A-callback: " + fi.Key + " calls the function literal it is given and does not retain it")
+			saved, savedHeap := l.escaped, l.escapedHeap
+			l.escaped, l.escapedHeap = map[string]bool{}, map[string]bool{}
+			l.recordEscape(l.p.litInfo[fl])
+			for k := range l.escaped {
+				delete(saved, k)
+			}
+			for k := range l.escapedHeap {
+				delete(savedHeap, k)
+			}
+			l.escaped, l.escapedHeap = saved, savedHeap
+		}
+	}
 	return results
 }
 
